@@ -66,4 +66,51 @@ theorem cross_flavour_read (fs' : FS) (key : Bytes) :
     (fun (_ : Flavour) => (run env (read cfg cache key) fs').1) Flavour.sync =
     (fun (_ : Flavour) => (run env (read cfg cache key) fs').1) Flavour.async := rfl
 
+/-! ### total correctness: whole programs in any mix of flavours -/
+
+open CacheRefine Refine in
+/-- The same operation through the other flavour. -/
+def withFlavour (f : Flavour) : CacheRefine.COp → CacheRefine.COp
+  | .put _ key o chunks => .put f key o chunks
+  | op => op
+
+open CacheRefine Refine in
+theorem withFlavour_wf (f : Flavour) (op : CacheRefine.COp) (h : op.WF cfg) : (withFlavour f op).WF cfg := by
+  cases op <;> exact h
+
+open CacheRefine Refine in
+/-- The abstract cache does not know flavours. -/
+theorem cSpecRun_flavour (fl : Nat → Flavour) (ops : List (Env × CacheRefine.COp)) (m : AbsCache) (i : Nat) :
+    cSpecRun cfg ((ops.zipIdx i).map (fun x => (x.1.1, withFlavour (fl x.2) x.1.2))) m = cSpecRun cfg ops m := by
+  induction ops generalizing m i with
+  | nil => rfl
+  | cons x ops ih =>
+    obtain ⟨env, op⟩ := x
+    simp only [List.zipIdx_cons, List.map_cons, cSpecRun]
+    have e : ∀ m, cSpecStep cfg env m (withFlavour (fl i) op) = cSpecStep cfg env m op := by
+      intro m; cases op <;> rfl
+    rw [e, ih]
+
+open CacheRefine Refine in
+/-- **Any program, any assignment of flavours to its steps** (all sync, all async, mixed in any
+pattern — `fl` picks the flavour of step `i`): started from a healthy cache, the program run with
+the flavours `fl` returns at every step exactly what the program run as written returns, and leaves
+a cache with the same abstract content (index map and content store) — i.e. every later lookup,
+read and listing answers the same.  Keyed writes of every shape, reads, index and by-address
+operations; unbounded length. -/
+theorem flavour_assignment_irrelevant (fl : Nat → Flavour) (ops : List (Env × CacheRefine.COp)) (fs : FS)
+    (h : Healthy cfg cache fs) (hl : HexLen cfg) (hops : ∀ x ∈ ops, x.2.WF cfg) :
+    (cRunOps cfg cache ((ops.zipIdx 0).map (fun x => (x.1.1, withFlavour (fl x.2) x.1.2))) fs).1 =
+      (cRunOps cfg cache ops fs).1 ∧
+    absCache cfg cache (cRunOps cfg cache ((ops.zipIdx 0).map (fun x => (x.1.1, withFlavour (fl x.2) x.1.2))) fs).2 =
+      absCache cfg cache (cRunOps cfg cache ops fs).2 := by
+  have hops' : ∀ x ∈ (ops.zipIdx 0).map (fun x => (x.1.1, withFlavour (fl x.2) x.1.2)), x.2.WF cfg := by
+    intro x hx
+    obtain ⟨y, hy, rfl⟩ := List.mem_map.mp hx
+    exact withFlavour_wf cfg _ _ (hops y.1 (List.fst_mem_of_mem_zipIdx hy))
+  obtain ⟨a1, a2, _⟩ := cache_refines_map cfg cache _ fs h hl hops'
+  obtain ⟨b1, b2, _⟩ := cache_refines_map cfg cache ops fs h hl hops
+  rw [a1, a2, b1, b2, cSpecRun_flavour]
+  exact ⟨rfl, rfl⟩
+
 end Cacache.C12
